@@ -42,6 +42,8 @@ def run(chk, repo):
     chk.attempt(m2, chk, repo)
     chk.attempt(m3, chk, repo)
     chk.attempt(m5, chk, repo)
+    from .common_rules import stateless_constructs
+    chk.attempt(stateless_constructs, chk, repo, "C05-F8")
     chk.count("functions", 8)
 
 
